@@ -254,6 +254,12 @@ class ClassEval:
                 if fn.attr in ("sub", "split") and len(rest) > npos:
                     kw.setdefault("count" if fn.attr == "sub" else "maxsplit", rest[npos])
                 return self._apply_re(_re.compile(pat, fl), fn.attr, rest[:npos], kw)
+        # `list.append(self, x)` in a list subclass whose instance is concrete here
+        if isinstance(fn, ast.Attribute) and isinstance(fn.value, ast.Name) and fn.value.id == "list" and fn.attr in ("append", "remove", "insert", "extend") \
+                and node.args and (local is None or "list" not in local):
+            tgt = ev(node.args[0])
+            if isinstance(tgt, list):
+                return getattr(list, fn.attr)(tgt, *[ev(a) for a in node.args[1:]])
         if isinstance(fn, ast.Name) and fn.id in ("map", "filter") and len(node.args) >= 2 and not node.keywords and (local is None or fn.id not in local):
             fobj = ev(node.args[0]) if not isinstance(node.args[0], ast.Name) or node.args[0].id in (local or {}) else None
             if callable(fobj) and not isinstance(fobj, type):
@@ -412,7 +418,7 @@ class ClassEval:
         a = f.node.args
         if a.vararg or a.kwarg or a.kwonlyargs or len(args) > len(params):
             raise AnalysisError("%s: parameter list not supported" % mname)
-        env = {"self": Opaque("self")} if with_self else {}
+        env = {"self": getattr(self, "self_value", None) if getattr(self, "self_value", None) is not None else Opaque("self")} if with_self else {}
         env.update(zip(params, args))
         for k, v in (kwargs or {}).items():
             if k not in params or k in env:
